@@ -64,6 +64,7 @@ type Contract struct {
 	Pure      bool
 	Determ    bool
 	NoWorld   bool
+	DetArgs   []string // parameters (by name; receiver = self or its name) the deterministic results depend on; nil = all
 	Loops     map[int]*LoopSpec
 	Ranges    map[int]*RangeSpec
 	Callsites []CallsiteSpec
@@ -130,7 +131,7 @@ func newContractSet() *ContractSet {
 var clauseKeywords = map[string]bool{
 	"func": true, "interface": true, "extern": true, "type": true, "ghost": true, "spec": true, "lemma": true, "syncmap": true,
 	"props": true, "requires": true, "ensures": true, "modifies": true, "nopanic": true, "maypanic": true,
-	"inline": true, "assumed": true, "pure": true, "use": true, "deterministic": true, "noworld": true, "opaque": true, "dispatch": true, "loop": true, "range": true, "callsite": true, "decreases": true,
+	"inline": true, "assumed": true, "pure": true, "use": true, "deterministic": true, "noworld": true, "opaque": true, "dispatch": true, "detargs": true, "loop": true, "range": true, "callsite": true, "decreases": true,
 }
 
 func firstWord(s string) string {
@@ -486,6 +487,8 @@ func (c *Contract) addClause(kw, rest string) error {
 		c.Determ = true
 	case "noworld":
 		c.NoWorld = true
+	case "detargs":
+		c.DetArgs = strings.Fields(rest)
 	case "dispatch":
 		// dispatch <Iface> <T1> <T2> ...: calls on a value of static type Iface are split on these dynamic types
 		f := strings.Fields(rest)
